@@ -556,6 +556,7 @@ func (vc *VC) execAlloc(fr *Frame, n *Node, a *ssa.Alloc) {
 		fr.regs[a] = ref
 		fr.allocFresh[ref] = true
 		vc.zeroObject(n, lv)
+		vc.zeroGhosts(fr, n, t, ref)
 	case isArrayType(t):
 		at := t.Underlying().(*types.Array)
 		ref := vc.newRef(n, hint)
@@ -1323,4 +1324,32 @@ func (vc *VC) execSelect(fr *Frame, n *Node, s *ssa.Select) {
 		tup = append(tup, v)
 	}
 	fr.tuples[s] = tup
+}
+
+// zeroGhosts: the ghost fields of a freshly allocated object start at their default (empty set, 0, nil, false) - like
+// its real fields.
+func (vc *VC) zeroGhosts(fr *Frame, n *Node, t types.Type, ref string) {
+	owner := typeName(t)
+	for key, g := range vc.p.ghosts {
+		if !strings.HasPrefix(key, owner+".") || key != owner+"."+g.Name {
+			continue
+		}
+		sc := vc.specCtx(fr, n, n.env)
+		v, err := sc.ghostField(g, owner, ref)
+		if err != nil || v.LV == nil {
+			continue
+		}
+		var zero string
+		switch {
+		case v.Sort == "Int":
+			zero = "0"
+		case v.Sort == "Bool":
+			zero = "false"
+		case v.Sort == "(Array Int Bool)":
+			zero = "((as const (Array Int Bool)) false)"
+		default:
+			continue // maps and other spec sorts: no default
+		}
+		n.assume(sEq(app("select", vc.cur(n.env, v.LV.sv), ref), zero))
+	}
 }
